@@ -27,6 +27,18 @@ Scenarios (each on fresh objects and a fresh Session):
   MRG  ``other_session.merge(x)`` of a transient graph: the new objects of the other
        session correspond exactly to the merge closure.
 
+Added after the seeded-change round: kind Z6 (the Z1 chain without any backref:
+unidirectional one-to-many), scenario PRE (a transient child is put into and taken out
+of a delete-orphan relationship while nobody is in a session, stays parentless, is then
+given to add()/add_all() explicitly: it must be INSERTed with its save-update closure),
+scenario ORPH-D and a random step in ORPH (a child is removed from a delete-orphan
+collection and the parent is session.delete()d in the same flush: the removed child is
+deleted as an orphan together with its own delete closure).  Extra guards: an object
+attached to a parent in the round is not chosen for delete() (the attachment cancels a
+delete by design); in the unidirectional kind children are never moved between parents
+and a child that was in no collection at the last flush is not attached-and-detached
+(the unit of work cannot see it unless it happens to be dirty).
+
 Guards: operations are issued on the relationship that carries the cascade (SQLAlchemy
 2.x does not cascade through the backref side of an event); delete / expunge / expire /
 merge run on flushed, fully loaded graphs (non-delete cascades deliberately do not load
@@ -47,8 +59,10 @@ tree are not generated.  Further guards found necessary:
 A flush that raises IntegrityError in the delete / orphan scenarios is reported (a row
 the cascade should have removed is still referencing a deleted one).
 
-Still firing on the live tree (candidate defect, see the report):
-``delete-orphan-toplevel-skips-delete-cascade``.
+``delete-orphan-toplevel-skips-delete-cascade`` was fixed in /repo (341a8e1).  Still firing
+on the live tree (candidate defect, same omission in another place, see the report and
+selftest/C39/PROPOSED_FIX_presort_deletes_orphan_cascade.patch.txt):
+``delete-orphan-parent-delete-skips-orphan-cascade``.
 """
 from __future__ import annotations
 
